@@ -12,5 +12,10 @@ func lookPath(s string) (string, error) { return exec.LookPath(s) }
 // textual report containing REPLAY-CONFIRMED when the real code exhibits the violation; ""
 // when no replay harness exists for the obligation's function.
 func tryReplay(rc *runCtx, r *vc.SolveResult, model, base string) string {
-	return ""
+	ct := rc.cs.ByFunc[r.Obl.Func]
+	if ct == nil {
+		return ""
+	}
+	rep, _ := rc.ex.ReplayPure(r.Obl, ct, base+".replay")
+	return rep
 }
